@@ -1,8 +1,11 @@
 """C03 — clamped, checked and unclamped conversions obey one bounds contract."""
+import os
 import re
+import shutil
+import subprocess
 from fractions import Fraction as Fr
 
-from . import alg, sym, poly
+from . import alg, sym, poly, facts
 from .common import Session, check_value, impl_methods, apps_of, atoms_of, one
 from .sym import Struct, Tuple, Ite, Opaque, mk_ite, restrict
 from .poly import RatFunc
@@ -146,6 +149,7 @@ def run(F, rep, tier="quick", extra=None, only=None):
     rep.floor("bounded colour types", n_types, 26)
 
     check_blankets(F, rep)
+    check_contract_applies(F, rep, [t for t in types if t.split("::")[-1] not in ("Alpha", "PreAlpha") and t in wb and t in cl and t in ca])
     return {"level": "proof"}
 
 
@@ -272,3 +276,74 @@ def check_blankets(F, rep):
                 rep.ob("BOUNDS-ALPHA", "alpha:" + m, ok, repr(v)[:300], F.loc(b))
         except (Opaque, KeyError, AttributeError) as ex:
             rep.fail("BOUNDS-ALPHA", "alpha:" + m, "uninterpretable: %s" % ex, F.loc(b))
+
+
+# ------------------------------------------------------------------------------------ BOUNDS-APPLY (compiler-decided witness)
+def check_contract_applies(F, rep, types):
+    """The laws above are about impl BODIES; they say nothing if the impl's where-clause excludes the types users have.  A generated witness
+    crate lets rustc's trait solver decide, for every bounded colour type X and f32 / f64 components, that X, Alpha<X, T> and [X] implement
+    the contract traits, and that the Alpha form is an admissible target of the checked conversion (`IsWithinBounds<Mask = bool>`).  (Without `Alpha<X, T>: IsWithinBounds`, method
+    resolution silently falls through Deref to the colour's impl and the alpha is never tested.)"""
+    from .c04 import META, public_path
+    wdir = os.path.join(os.path.dirname(os.path.dirname(os.path.abspath(__file__))), "witness_c03")
+    os.makedirs(os.path.join(wdir, "src"), exist_ok=True)
+    lines = ["// generated by rules/c03.py from the facts of /repo's current tree - do not edit", "#![allow(unused_imports, dead_code)]",
+             "use palette::{Alpha, Clamp, ClampAssign, IsWithinBounds};", "use palette::convert::TryFromColor;",
+             "fn within<T: IsWithinBounds + ?Sized>() {}", "fn clamp<T: Clamp>() {}", "fn clamp_assign<T: ClampAssign + ?Sized>() {}",
+             "fn within_bool<T: IsWithinBounds<Mask = bool>>() {}", ""]
+    rows = {}   # line number -> (key, what)
+    n_types = 0
+    for adt_path in types:
+        adt = F.adt_by_path.get(adt_path)
+        if adt is None or not adt["pub"]:
+            continue
+        n_types += 1
+        for comp in ("f32", "f64"):
+            targs, ok = [], True
+            for g in adt["generics"]:
+                if g == "T":
+                    targs.append(comp)
+                elif g in META:
+                    targs.append(META[g])
+                else:
+                    ok = False
+            if not ok:
+                rep.fail("BOUNDS-APPLY", "instantiate:" + adt_path, "unknown generic parameter in %s" % adt["generics"])
+                break
+            x = "%s<%s>" % (public_path(adt_path), ", ".join(targs)) if targs else public_path(adt_path)
+            name = adt_path.split("::")[-1]
+            for form, ty in (("plain", x), ("Alpha", "Alpha<%s, %s>" % (x, comp)), ("slice", "[%s]" % x), ("slice of Alpha", "[Alpha<%s, %s>]" % (x, comp))):
+                for fn, tr in (("within", "IsWithinBounds"), ("clamp", "Clamp"), ("clamp_assign", "ClampAssign")):
+                    if form.startswith("slice") and tr == "Clamp":
+                        continue
+                    lines.append("const _: fn() = || %s::<%s>();" % (fn, ty))
+                    rows[len(lines)] = ("%s:%s<%s,%s>" % (tr, form, name, comp), "%s: %s" % (ty, tr))
+            # what the blanket TryFromColor impl needs of its target besides the unclamped conversion
+            lines.append("const _: fn() = || within_bool::<Alpha<%s, %s>>();" % (x, comp))
+            rows[len(lines)] = ("TryFromColor-target:Alpha<%s,%s>" % (name, comp), "Alpha<%s, %s>: IsWithinBounds<Mask = bool>" % (x, comp))
+    with open(os.path.join(wdir, "src", "lib.rs"), "w") as fh:
+        fh.write("\n".join(lines) + "\n")
+    with open(os.path.join(wdir, "Cargo.toml"), "w") as fh:
+        fh.write('[package]\nname = "witness_c03"\nversion = "0.0.0"\nedition = "2021"\n\n[workspace]\n\n[dependencies]\npalette = { path = "%s/palette", default-features = false, features = ["std"] }\n' % facts.REPO)
+    lock = os.path.join(facts.REPO, "Cargo.lock")
+    if os.path.exists(lock):
+        shutil.copy(lock, os.path.join(wdir, "Cargo.lock"))
+    env = dict(os.environ, CARGO_TARGET_DIR=os.path.join(facts.CACHE, "tgt", "witness_c03"), CARGO_NET_OFFLINE="true", RUSTFLAGS="-Awarnings")
+    with facts.Lock("witness_c03"):
+        r = subprocess.run(["cargo", "+nightly", "check", "--offline", "-q", "--message-format=short"], cwd=wdir, env=env,
+                           stdout=subprocess.PIPE, stderr=subprocess.STDOUT, text=True)
+    failed = {}
+    other = []
+    for l in r.stdout.splitlines():
+        m = re.match(r"^src/lib\.rs:(\d+):\d+: error(\[E\d+\])?: (.*)$", l)
+        if m and int(m.group(1)) in rows:
+            failed.setdefault(int(m.group(1)), m.group(3))
+        elif l.startswith("error") and "could not compile" not in l and "aborting" not in l:
+            other.append(l)
+    if r.returncode != 0 and not failed:
+        rep.fail("BOUNDS-APPLY", "witness-crate", "witness does not compile: " + " | ".join((other or r.stdout.splitlines())[:6]), "witness_c03/src/lib.rs")
+        return
+    for ln, (key, what) in sorted(rows.items()):
+        rep.ob("BOUNDS-APPLY", key, ln not in failed, ("rustc: " + failed[ln]) if ln in failed else what + " (decided by rustc's trait solver)",
+               "witness_c03/src/lib.rs:%d" % ln)
+    rep.floor("bounded colour types in the contract witness", n_types, 26)
